@@ -32,8 +32,10 @@ func init() {
 			"publications to the hot topic, calls between readers, calls to stalled callees, YIELDs (progressive and final) to stalled callers, requests sent by the stalled sessions themselves " +
 			"(repeated SUBSCRIBE, PUBLISH, CALL), meta calls, kills and departures of stalled sessions, AddRealm/RemoveRealm; oracles: every reply/delivery to a reader carries the virtual timestamp of " +
 			"its request (zero delay; retry-period bound for the yielding callee), backlog drained after resume <= queue bound, no bubble deadlock, every request answered after a +3 min drain; " +
-			"non-trivial = >=1 message was dropped for a stalled session while a reader had a request in flight in the same round",
-		Required: []string{"ST1", "ST2", "ST3", "ST4"},
+			"non-trivial = >=1 message was dropped for a stalled session while a reader had a request in flight in the same round; every 4th case instead: nobody stalled, 6-8 closed-loop sessions " +
+			"(register/unregister churn, subscribe/unsubscribe churn, 1-3 meta API callers, meta event observer, acknowledged publisher, caller of the churned procedure; 30-120 rounds each, GOMAXPROCS 1/2/4/8) " +
+			"released together: every loop must have completed all rounds when the bubble is quiescent (ST5), non-trivial = >=100 rounds completed",
+		Required: []string{"ST1", "ST2", "ST3", "ST4", "ST5"},
 		Level:    "exploration",
 	})
 }
@@ -50,6 +52,10 @@ type c07Stalled struct {
 }
 
 func runC07(c *Case) {
+	if c.Index%4 == 3 {
+		runC07Concurrent(c)
+		return
+	}
 	r := c.Rng
 	var script []string
 	dropped, inflight := 0, 0
